@@ -494,6 +494,11 @@ def _cancel_worker(args):
             if err is None and "nan" not in chain:
                 for a in pts:
                     u, v = _apply_chain(chain, fns, a), _apply_chain(k, fns, a)
+                    if u is None:
+                        # the full chain is undefined at this point in floating point (overflow, or an
+                        # underflow to 0.0 followed by a reciprocal pair): "same composition where
+                        # defined" says nothing here; the cancelled chain may only have a larger domain
+                        continue
                     if not _close_vec(u, v):
                         err = "composition at a=%s: %s before, %s after cancellation" % (list(a), u, v)
                         break
